@@ -317,6 +317,232 @@ def task_sw(ctx, cfg, integrator):
                      exact_derivative=(integrator in ('backward_forward_euler',)))
 
 
+def task_interp_derivatives(ctx, rname, sname, xp):
+  """Vertical interpolation (kinks at the nodes and at the ends of the range): derivative programs interpreted in the TERM domain
+  (comparisons, selects, clamped gathers as ite-terms) with the query point, the data, the tangent and the cotangent symbolic, nodes concrete.
+   (a) strictly inside a cell / strictly outside the range the forward derivative is the derivative of the documented interpolant:
+       slope_i * dx + (1-t) dfp_i + t dfp_{i+1}   (outside: constant extrapolation 0 * dx + dfp_end, or the end slope for the linear variant);
+   (b) reverse mode is the adjoint of forward mode: gx * dx + <gfp, dfp> = w * jvp, everywhere (nodes included);
+   (c) at the kinks the forward derivative is finite and lies between the two one-sided derivatives."""
+  import z3
+  from fractions import Fraction
+  from dverif import smt
+  from dverif.term import TermArr, TermSpace, R, specialize
+  from dverif.jsym import Interp
+  from dinosaur import vertical_interpolation as vi
+  fn = {'jnp.interp': jnp.interp, '_dot_interp': vi._dot_interp, 'interp': vi.interp, 'linear_interp_with_linear_extrap': vi.linear_interp_with_linear_extrap}[rname]
+  ctx.encoded(vi._dot_interp, vi.interp, vi.linear_interp_with_linear_extrap)
+  xp = np.asarray(xp, float); n = len(xp)
+  Q = lambda v: z3.RealVal(Fraction(float(v)))
+  rr = lambda t: (z3.ToReal(R(t)) if z3.is_int(R(t)) else R(t))
+  g = lambda x, fp: fn(x, jnp.asarray(xp), fp)
+  sp = TermSpace()
+  x = TermArr.variables(sp, 'x', ()); fp = TermArr.variables(sp, 'fp', (n,)); tx = TermArr.variables(sp, 'tx', ()); tfp = TermArr.variables(sp, 'tfp', (n,))
+  w = TermArr.variables(sp, 'w', ())
+  cj = jax.make_jaxpr(lambda x, fp, tx, tfp: jax.jvp(g, (x, fp), (tx, tfp))[1])(0.5, jnp.zeros(n), 0.0, jnp.zeros(n))
+  cv = jax.make_jaxpr(lambda x, fp, w: jax.vjp(g, x, fp)[1](w))(0.5, jnp.zeros(n), 1.0)
+  jv = rr(Interp(sp).run(cj, x, fp, tx, tfp)[0].a.reshape(-1)[0])
+  gx_, gfp_ = Interp(sp).run(cv, x, fp, w)
+  gx = rr(gx_.a.reshape(-1)[0]); gfp = [rr(t) for t in gfp_.a.reshape(-1)]
+  xv = x.a.reshape(-1)[0]; f = list(fp.a); txv = tx.a.reshape(-1)[0]; tf = list(tfp.a); wv = w.a.reshape(-1)[0]
+  box = [z3.And(v >= -1, v <= 1) for v in f + tf + [txv, wv]]
+  span = float(xp[-1] - xp[0])
+  conf = dict(routine=rname, nodes=sname, n=n)
+  eps = Q(1e-9)
+  far = lambda t: z3.Or(t > eps, t < -eps)
+  jf = jax.jit(lambda x, fp, tx, tfp: jax.jvp(g, (x, fp), (tx, tfp))[1])
+  vf = jax.jit(lambda x, fp, w: jax.vjp(g, x, fp)[1](w))
+
+  def val(model, t):
+    v = model.eval(t, model_completion=True)
+    try:
+      return float(v.as_fraction())
+    except Exception:  # noqa: BLE001
+      return float(v.approx(20).as_fraction())
+
+  def decide(name, cfg, pre, bad, spec, expect):
+    st = {}
+    bad_s = specialize([bad], spec, stats=st)[0]
+    v, model = smt.check_z3(list(pre) + list(spec) + [bad_s], 'QF_NRA', 60000, want_model=True)
+    if v == 'unsat':
+      ctx.clause(name, 'discharged', config=cfg, queries=1 + st.get('queries', 0))
+      return
+    if v != 'sat':
+      ctx.clause(name, 'inconclusive', config=cfg, queries=1); ctx.error(name, f'solver verdict {v}')
+      return
+    xc = val(model, xv); fc = np.array([val(model, t) for t in f]); txc = val(model, txv); tfc = np.array([val(model, t) for t in tf]); wc = val(model, wv)
+    got = float(jf(xc, jnp.asarray(fc), txc, jnp.asarray(tfc)))
+    gxc, gfc = vf(xc, jnp.asarray(fc), wc)
+    msg = expect(xc, fc, txc, tfc, wc, got, float(gxc), np.asarray(gfc))
+    ctx.clause(name, 'failed', config=cfg, queries=1)
+    if msg:
+      ctx.violation(name, dict(config=cfg, kind='interp-derivative'), dict(inputs=dict(x=xc, fp=fc.tolist(), tx=txc, tfp=tfc.tolist(), w=wc), jvp=got, vjp=[float(gxc), np.asarray(gfc).tolist()]),
+                    f'{name} ({rname}, nodes {sname}): {msg}')
+    else:
+      ctx.error(name, 'counterexample did not replay on the real derivative programs')
+
+  def ref_derivative(i_lo, i_hi, slope_on):
+    """derivative of  fp_lo + (x - xp_lo)/(xp_hi - xp_lo) (fp_hi - fp_lo)  in direction (tx, tfp); slope_on=False: constant extrapolation."""
+    if not slope_on:
+      return tf[i_lo]
+    d = Q(xp[i_hi]) - Q(xp[i_lo]); t = (xv - Q(xp[i_lo])) / d
+    return (f[i_hi] - f[i_lo]) / d * txv + (1 - t) * tf[i_lo] + t * tf[i_hi]
+
+  def ref_num(i_lo, i_hi, slope_on, xc, fc, txc, tfc):
+    if not slope_on:
+      return tfc[i_lo]
+    d = xp[i_hi] - xp[i_lo]; t = (xc - xp[i_lo]) / d
+    return (fc[i_hi] - fc[i_lo]) / d * txc + (1 - t) * tfc[i_lo] + t * tfc[i_hi]
+  linear_out = rname == 'linear_interp_with_linear_extrap'
+  regions = [('below', [xv >= Q(xp[0] - 3 * span), xv < Q(xp[0])], (0, 1, linear_out))]
+  regions += [(f'cell{i}', [xv > Q(xp[i]), xv < Q(xp[i + 1])], (i, i + 1, True)) for i in range(n - 1)]
+  regions += [('above', [xv > Q(xp[-1]), xv <= Q(xp[-1] + 3 * span)], ((n - 2, n - 1, True) if linear_out else (n - 1, n - 1, False)))]
+  for rn, spec, (ilo, ihi, son) in regions:
+    cfg = dict(conf, region=rn)
+    refd = ref_derivative(ilo, ihi, son)
+    decide('interp.forward_derivative_is_derivative_of_documented_interpolant', cfg, box, far(jv - refd), spec,
+           lambda xc, fc, txc, tfc, wc, got, gxc, gfc, a=(ilo, ihi, son): (None if abs(got - ref_num(*a, xc, fc, txc, tfc)) <= 1e-9 else
+                                                                        f'jvp at x={xc} is {got}, derivative of the documented interpolant is {ref_num(*a, xc, fc, txc, tfc)}'))
+  # vacuity twin: a slope perturbed by 1e-3 must be seen
+  rn, spec, (ilo, ihi, son) = regions[1]
+  tw = specialize([far(jv - (ref_derivative(ilo, ihi, son) + Q(1e-3) * txv))], spec)[0]
+  v, _ = smt.check_z3(box + list(spec) + [tw], 'QF_NRA', 60000, want_model=False)
+  if v != 'sat':
+    ctx.error('interp.twin', f'vacuity twin not sat ({v})')
+  else:
+    ctx.res['twins']['sat'] += 1
+  # adjoint identity everywhere (regions and nodes)
+  adj = gx * txv + sum(a * b for a, b in zip(gfp, tf)) - wv * jv
+  allregs = [(rn, spec) for rn, spec, _ in regions] + [(f'node{i}', [xv == Q(xp[i])]) for i in range(n)]
+  for rn, spec in allregs:
+    decide('interp.reverse_mode_is_adjoint_of_forward_mode', dict(conf, region=rn), box, far(adj), spec,
+           lambda xc, fc, txc, tfc, wc, got, gxc, gfc: (None if abs(gxc * txc + float(np.dot(gfc, tfc)) - wc * got) <= 1e-9 else
+                                                        f'<Jv,w> = {wc * got} but <v,J^T w> = {gxc * txc + float(np.dot(gfc, tfc))} at x={xc}'))
+  # kinks: at a node the property's finite-difference clause demands the central-difference limit, i.e. the MEAN of the two one-sided
+  # derivatives (what jnp.maximum / jnp.minimum deliver at ties).  Where the real program returns a one-sided derivative instead the
+  # discrepancy is replayed (jvp vs central difference) and reported with the signature one_sided=True (known finding F12 for the interp family).
+  for i in range(n):
+    la = (i - 1, i, True) if i > 0 else ((0, 1, True) if linear_out else (0, 0, False))
+    ra = (i, i + 1, True) if i < n - 1 else ((n - 2, n - 1, True) if linear_out else (n - 1, n - 1, False))
+    left = ref_derivative(*la); right = ref_derivative(*ra)
+    lo = z3.If(left <= right, left, right); hi = z3.If(left >= right, left, right)
+    spec = [xv == Q(xp[i])]
+    cfg = dict(conf, node=i)
+    # finite and never outside the one-sided derivatives
+    decide('interp.derivative_at_a_node_is_between_the_one_sided_derivatives', cfg, box, z3.Or(jv < lo - eps, jv > hi + eps), spec,
+           lambda xc, fc, txc, tfc, wc, got, gxc, gfc: (f'jvp at the node x={xc} is {got}' if not np.isfinite(got) else
+                                                        (f'jvp at the node x={xc} is {got}, outside the one-sided derivatives')))
+    # central-difference limit
+    name = 'interp.derivative_at_a_node_is_the_central_difference_limit'
+    bad_s = specialize([far(jv - (left + right) / 2)], spec)[0]
+    v, model = smt.check_z3(box + spec + [bad_s], 'QF_NRA', 60000, want_model=True)
+    if v == 'unsat':
+      ctx.clause(name, 'discharged', config=cfg, queries=1)
+      continue
+    if v != 'sat':
+      ctx.clause(name, 'inconclusive', config=cfg, queries=1); ctx.error(name, f'solver verdict {v}')
+      continue
+    xc = val(model, xv); fc = np.array([val(model, t) for t in f]); txc = val(model, txv); tfc = np.array([val(model, t) for t in tf])
+    got = float(jf(xc, jnp.asarray(fc), txc, jnp.asarray(tfc)))
+    h = 1e-6 * max(1.0, span)
+    fd = float((g(xc + h * txc, jnp.asarray(fc + h * tfc)) - g(xc - h * txc, jnp.asarray(fc - h * tfc))) / (2 * h))
+    dl = ref_num(*la, xc, fc, txc, tfc); dr = ref_num(*ra, xc, fc, txc, tfc)
+    one_sided = bool(min(abs(got - dl), abs(got - dr)) <= 1e-9)
+    ctx.clause(name, 'failed', config=cfg, queries=1)
+    if abs(got - fd) > 1e-5 * max(1.0, abs(fd)):
+      ctx.violation(name, dict(config=cfg, kind='kink-derivative', routine=rname, one_sided=one_sided),
+                    dict(inputs=dict(x=xc, fp=fc.tolist(), tx=txc, tfp=tfc.tolist()), jvp=got, central_difference=fd, left_derivative=dl, right_derivative=dr),
+                    f'{rname}: jvp at the node x={xc} is {got} ({"a one-sided derivative" if one_sided else "neither one-sided derivative"}), central finite difference gives {fd}')
+    else:
+      ctx.error(name, 'counterexample did not replay on the real derivative program')
+
+
+def task_upwind_derivative(ctx, lname, levels):
+  """upwind_vertical_advection has a kink wherever a vertical velocity is exactly zero.  With velocities, data, tangents and cotangent symbolic
+  (term domain, one column) the forward derivative equals, for every sign pattern of the velocities, the derivative of the documented one-sided
+  formula, and AT a zero velocity the central-difference limit (the mean of the two one-sided derivatives, which is what the property's
+  finite-difference clause demands); reverse mode is the adjoint of forward mode everywhere."""
+  import itertools
+  import z3
+  from fractions import Fraction
+  from dverif import smt
+  from dverif.term import TermArr, TermSpace, R, specialize
+  from dverif.jsym import Interp
+  from dinosaur import sigma_coordinates as sc
+  coords = sc.SigmaCoordinates(np.asarray(levels, float))
+  K = coords.layers
+  ctx.encoded(sc.upwind_vertical_advection, sc.centered_difference)
+  Q = lambda v: z3.RealVal(Fraction(float(v)))
+  rr = lambda t: (z3.ToReal(R(t)) if z3.is_int(R(t)) else R(t))
+  g = lambda w, x: sc.upwind_vertical_advection(w, x, coords)
+  sp = TermSpace()
+  w = TermArr.variables(sp, 'w', (K - 1, 1, 1)); x = TermArr.variables(sp, 'x', (K, 1, 1))
+  tw = TermArr.variables(sp, 'tw', (K - 1, 1, 1)); tx = TermArr.variables(sp, 'tx', (K, 1, 1)); ct = TermArr.variables(sp, 'ct', (K, 1, 1))
+  ex = [jnp.zeros((K - 1, 1, 1)), jnp.zeros((K, 1, 1))]
+  cj = jax.make_jaxpr(lambda w, x, tw, tx: jax.jvp(g, (w, x), (tw, tx))[1])(*ex, *ex)
+  cv = jax.make_jaxpr(lambda w, x, c: jax.vjp(g, w, x)[1](c))(*ex, jnp.zeros((K, 1, 1)))
+  jv = [rr(t) for t in Interp(sp).run(cj, w, x, tw, tx)[0].a.reshape(-1)]
+  gw_, gx_ = Interp(sp).run(cv, w, x, ct)
+  gw = [rr(t) for t in gw_.a.reshape(-1)]; gxx = [rr(t) for t in gx_.a.reshape(-1)]
+  wv = list(w.a.reshape(-1)); xv = list(x.a.reshape(-1)); twv = list(tw.a.reshape(-1)); txv = list(tx.a.reshape(-1)); cv_ = list(ct.a.reshape(-1))
+  cen = np.asarray(coords.centers, float)
+  dsig = [Q(cen[k + 1]) - Q(cen[k]) for k in range(K - 1)]
+  dx = [(xv[k + 1] - xv[k]) / dsig[k] for k in range(K - 1)]; tdx = [(txv[k + 1] - txv[k]) / dsig[k] for k in range(K - 1)]
+  zero = z3.RealVal(0); half = Q(0.5)
+  w_up = [zero] + wv; w_dn = wv + [zero]; tw_up = [zero] + twv; tw_dn = twv + [zero]
+  dxu = [zero] + dx; dxd = dx + [zero]; tdxu = [zero] + tdx; tdxd = tdx + [zero]
+  pos = lambda t: z3.If(t > 0, z3.RealVal(1), z3.If(t == 0, half, zero))
+  neg = lambda t: z3.If(t < 0, z3.RealVal(1), z3.If(t == 0, half, zero))
+  mx = lambda t: z3.If(t > 0, t, zero); mn = lambda t: z3.If(t < 0, t, zero)
+  ref = []
+  for k in range(K):
+    a = (pos(w_up[k]) * tw_up[k] * dxu[k] + mx(w_up[k]) * tdxu[k]) if k > 0 else zero
+    b = (neg(w_dn[k]) * tw_dn[k] * dxd[k] + mn(w_dn[k]) * tdxd[k]) if k < K - 1 else zero
+    ref.append(-(a + b))
+  allv = wv + xv + twv + txv + cv_
+  box = [z3.And(v >= -1, v <= 1) for v in allv]
+  eps = Q(1e-9)
+  far = lambda t: z3.Or(t > eps, t < -eps)
+  jf = jax.jit(lambda w, x, tw, tx: jax.jvp(g, (w, x), (tw, tx))[1]); vf = jax.jit(lambda w, x, c: jax.vjp(g, w, x)[1](c))
+
+  def val(model, t):
+    v = model.eval(t, model_completion=True)
+    try:
+      return float(v.as_fraction())
+    except Exception:  # noqa: BLE001
+      return float(v.approx(20).as_fraction())
+  adj = sum(a * b for a, b in zip(gw, twv)) + sum(a * b for a, b in zip(gxx, txv)) - sum(a * b for a, b in zip(cv_, jv))
+  for pattern in itertools.product(('neg', 'zero', 'pos'), repeat=K - 1):
+    spec = [{'neg': wv[i] < 0, 'zero': wv[i] == 0, 'pos': wv[i] > 0}[p_] for i, p_ in enumerate(pattern)]
+    cfg = dict(levels=lname, K=K, velocity_signs=list(pattern))
+    for cname, bad in (('upwind.forward_derivative_is_central_difference_limit_of_documented_formula', z3.Or(*[far(a - b) for a, b in zip(jv, ref)])),
+                       ('upwind.reverse_mode_is_adjoint_of_forward_mode', far(adj))):
+      bad_s = specialize([bad], spec)[0]
+      v, model = smt.check_z3(box + spec + [bad_s], 'QF_NRA', 60000, want_model=True)
+      if v == 'unsat':
+        ctx.clause(cname, 'discharged', config=cfg, queries=1)
+        continue
+      if v != 'sat':
+        ctx.clause(cname, 'inconclusive', config=cfg, queries=1); ctx.error(cname, f'solver verdict {v}')
+        continue
+      wc = np.array([val(model, t) for t in wv]).reshape(K - 1, 1, 1); xc = np.array([val(model, t) for t in xv]).reshape(K, 1, 1)
+      twc = np.array([val(model, t) for t in twv]).reshape(K - 1, 1, 1); txc = np.array([val(model, t) for t in txv]).reshape(K, 1, 1)
+      cc = np.array([val(model, t) for t in cv_]).reshape(K, 1, 1)
+      got = np.asarray(jf(wc, xc, twc, txc)).reshape(-1)
+      h = 1e-6
+      fd = (np.asarray(g(wc + h * twc, xc + h * txc)) - np.asarray(g(wc - h * twc, xc - h * txc))).reshape(-1) / (2 * h)
+      gwc, gxc = vf(wc, xc, cc)
+      lhs = float(np.sum(cc.reshape(-1) * got)); rhs = float(np.sum(np.asarray(gwc) * twc) + np.sum(np.asarray(gxc) * txc))
+      ctx.clause(cname, 'failed', config=cfg, queries=1)
+      if cname.startswith('upwind.forward') and np.abs(got - fd).max() > 1e-6:
+        ctx.violation(cname, dict(config=cfg, kind='kink-derivative'), dict(inputs=dict(w=wc.tolist(), x=xc.tolist(), tw=twc.tolist(), tx=txc.tolist()), jvp=got.tolist(), central_difference=fd.tolist()),
+                      f'upwind_vertical_advection: jvp {got.tolist()} differs from the central finite difference {fd.tolist()} at w={wc.reshape(-1).tolist()} (signs {pattern})')
+      elif cname.startswith('upwind.reverse') and abs(lhs - rhs) > 1e-9:
+        ctx.violation(cname, dict(config=cfg, kind='adjoint'), dict(inputs=dict(w=wc.tolist(), x=xc.tolist()), lhs=lhs, rhs=rhs), f'upwind_vertical_advection: <Jv,w> = {lhs} but <v,J^T w> = {rhs}')
+      else:
+        ctx.error(cname, 'counterexample did not replay on the real derivative programs')
+
+
 def make_tasks(tier, seed):
   LS = models.level_sets(seed)
   cfg = dict(M=3, L=4, nlon=8, nlat=5)
@@ -330,6 +556,13 @@ def make_tasks(tier, seed):
            dict(name='pe-dry-euler-step', fn='task_pe', kw=dict(cfg=cfg, levels=LS['dy2'].tolist(), lname='dy2', kind='dry', what='euler_step')),
            dict(name='sw-euler', fn='task_sw', kw=dict(cfg=dict(M=2, L=3, nlon=6, nlat=4), integrator='backward_forward_euler')),
            dict(name='sw-euler-fast-padded', fn='task_sw', kw=dict(cfg=cfgp2, integrator='backward_forward_euler'))]
+  tasks.append(dict(name='upwind-derivative-dy3', fn='task_upwind_derivative', kw=dict(lname='dy3', levels=LS['dy3'].tolist())))
+  if tier != 'quick':
+    tasks.append(dict(name='upwind-derivative-dy4', fn='task_upwind_derivative', kw=dict(lname='dy4', levels=LS['dy4'].tolist())))
+  nodes = {'n3': [0.1, 0.3, 1.0], 'n4': [-1.0, -0.25, 0.5, 0.75]}
+  for rn in ('jnp.interp', '_dot_interp', 'interp', 'linear_interp_with_linear_extrap'):
+    for sn in (('n4',) if tier == 'quick' else ('n3', 'n4')):
+      tasks.append(dict(name=f'interp-derivatives-{rn}-{sn}', fn='task_interp_derivatives', kw=dict(rname=rn, sname=sn, xp=nodes[sn])))
   if tier != 'quick':
     tasks += [dict(name='pe-moist-explicit-small', fn='task_pe', kw=dict(cfg=dict(M=2, L=3, nlon=6, nlat=4), levels=LS['dy2'].tolist(), lname='dy2', kind='moist', what='explicit')),
               dict(name='sw-cnrk2', fn='task_sw', kw=dict(cfg=dict(M=2, L=3, nlon=6, nlat=4), integrator='crank_nicolson_rk2')),
